@@ -33,6 +33,7 @@ def check(ctx, run):
     only = lambda p: 'iterator' in p
     walkers.w_init(ctx, run, 'R06.9/R05.1', only=only, floor=7)
     walkers.w_advance(ctx, run, 'R06.9/R05.2', only=only, floor=4)
+    walkers.r05_18(ctx, run, 'R06.19/R05.18')
     walkers.w_pair(ctx, run, 'R06.9/R05.14', only=lambda p_: any(k_ in p_ for k_ in ('strip_nulls', 'delete_', 'concat', 'array_insert', 'object_')), floor=29)
     import boundaries
     _bf = lambda p_: p_.startswith(('functions::delete_', 'functions::array_insert', 'functions::object_'))
